@@ -25,7 +25,7 @@ class C06(Check):
     world = 'routing-table'
     level = 'exploration'
     design_ref = 'DESIGN.md 3.3'
-    runs = {'quick': 800, 'thorough': 30000}
+    runs = {'quick': 800, 'thorough': 10000}
     shrink_lists = (('ops',), ('config', 'ctor'))
     hashseeds = {'quick': [1], 'thorough': [1, 2]}
     rule = ('routing tables of up to 6 routes from a catalogue of overlapping/disjoint patterns (match relation known by '
